@@ -485,3 +485,56 @@ def c_reassembly_real(k):
     missing = sorted(set(classes) - used - {"cardillo.system.System"})
     # vacuity guard, not a clause of the property: a class added later that no scene contains is named here, it does not fail the check
     k.prove("vacuity guard: the scenes exercise the assembler_callback of at least 18 classes", len(set(classes) & used) >= 18, show=f"{len(set(classes) & used)} of {len(classes)} classes; in no scene: {missing}")
+
+
+@contract("C14", "real contributions/an integer-typed state denotes the same real values", samples=0, replayable=False, timeout=60)
+def c_integer_state(k):
+    """System.assemble stacks the initial coordinates of the contributions: all-integer q0 / u0 arrive as int64 arrays and
+    are handed to every evaluation routine by the consistency check.  The scatter must not depend on the machine type of
+    the state: every System evaluation routine returns for an integer-typed (t, q, u, u_dot, multipliers) what it returns
+    for the same values as float64 (executed natively on the mechanism scene, which contains bodies, joints, force laws,
+    actuators, contacts; the rod scenes are left out - integer nodal coordinates are degenerate rods)."""
+    from vk import kit as K
+    from vk import npshim
+
+    if not k.sym:
+        raise K.Reject("decided by native execution")
+    import contextlib
+    import inspect
+    import io
+    import warnings
+
+    import cardillo.system as csys
+
+    k.covers(csys.System.g, csys.System.g_S, csys.System.g_N, csys.System.W_g, csys.System.g_q, csys.System.W_N, csys.System.W_F)
+    with npshim.active(False), warnings.catch_warnings(), contextlib.redirect_stdout(io.StringIO()):
+        warnings.simplefilter("ignore")
+        build = next(iter(_real_scenes().values()))
+        s = build()
+        s.assemble()
+        rng = np.random.default_rng(2)
+        ints = lambda n: rng.integers(-2, 3, size=n)  # noqa: E731
+        q = ints(s.nq)
+        for c in s.contributions:
+            if type(c).__name__ == "RigidBody":
+                q[c.my_qDOF[3:]] = [1, 2, 0, 1]  # a non-zero integer quaternion
+        vals = dict(t=0, q=q, u=ints(s.nu), u_dot=ints(s.nu), la_g=ints(s.nla_g), la_gamma=ints(s.nla_gamma), la_c=ints(s.nla_c), la_N=ints(s.nla_N), la_F=ints(s.nla_F))
+        valsf = {n: (np.asarray(v, dtype=float) if not np.isscalar(v) else float(v)) for n, v in vals.items()}
+        n_checked = 0
+        for n, f in inspect.getmembers(type(s), inspect.isfunction):
+            ps = [p for p in inspect.signature(f).parameters if p not in ("self", "format")]
+            if n.startswith("_") or n in _EVAL_SKIP or not set(ps) <= set(_EVAL_ARGS):
+                continue
+            try:
+                want = np.asarray(_dense(getattr(s, n)(*[valsf[p] for p in ps])), dtype=float)
+            except Exception:  # noqa: BLE001  (not implemented for this scene)
+                continue
+            try:
+                got = np.asarray(_dense(getattr(s, n)(*[vals[p] for p in ps])), dtype=float)
+                ok = got.shape == want.shape and bool(np.allclose(got, want, rtol=1e-12, atol=1e-12, equal_nan=True))
+                how = "" if ok else (f"max deviation {np.nanmax(np.abs(got - want)):.3g}" if got.shape == want.shape else f"shape {got.shape} vs {want.shape}")
+            except Exception as e:  # noqa: BLE001
+                ok, how = False, f"raised {type(e).__name__}: {e}"
+            n_checked += 1
+            k.prove(f"System.{n}: integer-typed arguments give the result of the float-typed arguments", ok, show=how)
+        k.prove("vacuity guard: at least 50 System routines compared", n_checked >= 50, show=str(n_checked))
